@@ -28,7 +28,8 @@ ASSUMPTIONS = [
     'psutil.virtual_memory is patched to "plenty" so that the memory cache always caches (threshold crossings: C10)',
 ]
 N = {'quick': 500, 'thorough': 2500}
-STORAGES = ['new_pickle', 'new_copy', 'wu', 'cache', 'cache_eager', 'diskcache', 'cache_short', 'cache_over_copy']
+STORAGES = ['new_pickle', 'new_copy', 'wu', 'cache', 'cache_eager', 'diskcache', 'cache_short', 'cache_over_copy',
+            'new_file']
 READS = ['idx', 'neg', 'np', 'key', 'slice', 'iter', 'items', 'copy', 'copyf', 'view', 'iter_mut', 'items_mut',
          'prefetch_twice', 'cycle_mut']
 MUTS = ['set', 'append', 'del', 'clear', 'nested', 'array', 'array_scale']
@@ -56,6 +57,8 @@ def make_example(kind, i):
         return np.arange(4, dtype=np.int64) + 10 * i
     if kind == 'bigarray':
         return np.arange(BIG, dtype=np.float64) + i  # a top-level array of exactly 1 MiB
+    if kind == 'json':
+        return {'id': i, 'tags': [i, i + 1], 'meta': {'k': [i], 'd': {'x': i}}}  # what a JSON file can hold
     if kind == 'str':
         return f'utt{i}'  # every example is a plain str (a list of file names)
     if kind == 'npvoid':
@@ -164,7 +167,15 @@ class World:
         self.snapshot = copy.deepcopy(exs)
         self.original = dict(zip(self.keys, exs)) if cont == 'dict' else list(exs)
         self.tmp = None
-        if storage in ('new_pickle', 'new_copy'):
+        if storage == 'new_file':
+            # a dataset built from a JSON file (lazy_dataset.new(path)): the parsed content is the stored data
+            import json
+            self.tmp = tempfile.mkdtemp(prefix='verif_c09_')
+            path = self.tmp + '/data.json'
+            with open(path, 'w') as f:
+                json.dump(self.original, f)
+            self.ds = lazy_dataset.new(path if n % 2 else __import__('pathlib').Path(path))
+        elif storage in ('new_pickle', 'new_copy'):
             self.ds = lazy_dataset.new(self.original, immutable_warranty=storage.split('_')[1])
         elif storage == 'wu':
             self.ds = lazy_dataset.from_list(self.original, immutable_warranty='wu')
@@ -395,6 +406,8 @@ def replay(case):
 def st_case(draw):
     storage = draw(st.sampled_from(STORAGES))
     container = 'list' if storage == 'wu' else draw(st.sampled_from(['list', 'dict']))
+    if storage == 'new_file':
+        container = 'dict'
     n = draw(st.integers(1, 4))
     steps = []
     for _ in range(draw(st.integers(1, 8))):
@@ -408,6 +421,8 @@ def st_case(draw):
                           draw(st.sampled_from(MUTS + [None]))])
     payloads = ['dict', 'dict', 'dict', 'tuple', 'tuple', 'array', 'objarray', 'bigarray', 'attr_scalar', 'str',
                 'npvoid']
+    if storage == 'new_file':
+        payloads = ['json']
     if storage in ('cache', 'new_copy'):
         payloads += ['unpicklable', 'unpicklable']
     return {'storage': storage, 'container': container, 'payload': draw(st.sampled_from(payloads)),
